@@ -8,7 +8,7 @@ class P(StreamProperty):
     theorems = ['C08_unconfigured_owns_nothing', 'C08_encoder_owns_null_slots', 'C08_rs_decoder_owns_decoded', 'C08_received_never_owned',
                 'C08_returned_le']
     rule = ('sessions of every codec (RS 2^8, RS 2^m m=4/8, LDPC-Staircase) and role (encoder, decoder, encoder-and-decoder) released at EVERY point of their '
-            'life: unconfigured, after rejected parameters, configured, after each prefix of encoding and of decoding histories (IT-complete, ML-complete, '
+            'life: unconfigured, after rejected parameters, after a refused configuration followed by an accepted one, configured, after each prefix of encoding and of decoding histories (IT-complete, ML-complete, several of_finish_decoding calls with symbols in between, '
             'failed, duplicates, both submission APIs, callbacks returning a buffer/NULL), after finish; heavy-column LDPC sessions (N1 up to n-k, repairs first) whose per-call scratch tables grow. The harness attributes every heap block to the '
             'session call that allocated it (sanitizer malloc/free hooks); after release it reports the blocks still live, split into those the API documents as '
             'application-owned (decoded source symbols not received and not placed in a callback buffer, repair symbols built into a NULL slot) and others; '
@@ -91,6 +91,30 @@ class P(StreamProperty):
             steps = ['build 0 %d %s' % (e, ['null', 'own'][(e + ci) % 2]) for e in range(cfg.k, cfg.n)]
             steps += ['build 0 %d null' % cfg.k]     # rebuilding into a fresh NULL slot: the application owns both buffers
             prefixes(head, steps, cfg, 1)
+        # a configuration the codec refuses, then an accepted one on the same session, a short life, release
+        for ci, cfg in enumerate(cfgs):
+            if ci % 3: continue
+            for role in (1, 2, 3):
+                head = ['new 0 %d %d' % (cfg.codec, role), gens.refused_params_line(cfg, 0), cfg.params_line(0), cfg.payload_line(0)]
+                steps = (['build 0 %d null' % cfg.k] if role & 1 else []) + (['recv 0 %d' % e for e in range(cfg.n - 1, max(-1, cfg.n - 1 - cfg.k), -1)] + ['finish 0'] if role & 2 else [])
+                prefixes(head, steps, cfg, role, every=max(1, len(steps) // 2))
+        # LDPC sessions in which of_finish_decoding is called several times (too early: it fails and keeps the system; more symbols; again)
+        for j in range(40 if tier == 'quick' else 600):
+            k = rng.randint(3, 40); r = rng.randint(max(3, k - 2), k + 8)
+            cfg = gens.Cfg('ldpc', k, r, N1=rng.choice([3, 4, 5]) if r >= 5 else 3, seed=rng.randint(1, 2 ** 31 - 2), length=rng.choice([1, 8]))
+            perm = list(range(cfg.n)); rng.shuffle(perm)
+            a1 = rng.randint(1, max(1, k // 2)); a2 = min(cfg.n, max(a1 + 1, k + rng.randint(-2, 3))); a3 = min(cfg.n, a2 + rng.randint(0, 3))
+            role = 2 if j % 3 else 3
+            head = ['new 0 3 %d' % role, cfg.params_line(0)]
+            cb = ['none', 'null', 'buf', 'mix'][j % 4]
+            if cb != 'none': head.append('cb 0 %s' % cb)
+            head.append(cfg.payload_line(0))
+            steps = ['recv 0 %d' % e for e in perm[:a1]] + ['finish 0'] + ['recv 0 %d' % e for e in perm[a1:a2]] + ['finish 0'] + \
+                    ['recv 0 %d' % e for e in perm[a2:a3]] + ['finish 0', 'finish 0']
+            # released after each of_finish_decoding (and once in between)
+            cuts = [i + 1 for i, l in enumerate(steps) if l.startswith('finish')] + [a1 + 2]
+            for cut in sorted(set(cuts)):
+                add(head + steps[:cut] + ['release 0'], cfg, role)
         # larger sessions (several entry blocks, ML with many unknowns), released at a few points
         for j in range(12 if tier == 'quick' else 150):
             kind = rng.choice(['ldpc', 'ldpc', 'rs8', 'rs2m8', 'rs2m4'])
